@@ -25,19 +25,25 @@ pub struct UCfg {
     pub latency_us: u64,
     pub depth: usize,
     pub page_cache: bool,
+    /// disk capacity in bytes (None = unlimited)
+    pub capacity: Option<u64>,
+    /// the file is opened with O_DIRECT (alignment 1): the page cache must be bypassed
+    pub odirect: bool,
     pub letters: Vec<u16>,
 }
 
 impl UCfg {
     pub fn describe(&self) -> String {
         format!(
-            "{} rings={} sq_depth={} latency={}us history_depth={} page_cache={} letters={}",
+            "{} rings={} sq_depth={} latency={}us history_depth={} page_cache={} capacity={:?} odirect={} letters={}",
             self.name,
             self.rings,
             self.depth_ring,
             self.latency_us,
             self.depth,
             self.page_cache,
+            self.capacity,
+            self.odirect,
             self.letters.len()
         )
     }
@@ -62,6 +68,8 @@ pub const A_CANCEL_UNKNOWN: u16 = 16;
 pub const A_CANCEL_DONE: u16 = 17;
 pub const A_BADFLAG: u16 = 18;
 pub const A_READ_DUP: u16 = 19;
+/// write two bytes at offset 7: past end-of-file, leaving a hole
+pub const A_WRITE_HOLE: u16 = 20;
 pub const A_R1_WRITE1: u16 = 30;
 pub const A_R1_READ0: u16 = 31;
 /// drain ring 0 with the k-th scripted shuffle value
@@ -99,6 +107,9 @@ struct Sub {
 
 pub struct USys {
     fs: Arc<Mutex<Fs>>,
+    /// twin filesystem that receives the same operations through the synchronous Fs API at
+    /// completion time: the source of the expected result under a capacity limit
+    shadow: Arc<Mutex<Fs>>,
     iou: Arc<Mutex<IoUringHostState>>,
     rings: Vec<Option<IoUring>>,
     dead_rings: Vec<IoUring>,
@@ -128,6 +139,7 @@ const SENTINEL: u8 = 0xEE;
 const EBADF: i32 = -9;
 const ECANCELED: i32 = -125;
 const ENOENT: i32 = -2;
+const ENOSPC: i32 = -28;
 const EINVAL: i32 = -22;
 
 fn dur(us: u64) -> Duration {
@@ -254,7 +266,7 @@ impl USys {
                         }
                     }
                 }
-                K::Read { .. } if self.cfg.page_cache => {
+                K::Read { .. } if self.cfg.page_cache && !self.cfg.odirect => {
                     // a page-cache hit completes after ~100ns instead of the configured
                     // latency; the cache is not modelled, so a read is only required
                     // not to complete before it was submitted
@@ -279,7 +291,7 @@ impl USys {
             let mut cq = r.completion();
             cq.sync();
             let visible = cq.len();
-            if visible != elig.len() && !self.cfg.page_cache && self.floating.is_empty() {
+            if visible != elig.len() && !(self.cfg.page_cache && !self.cfg.odirect) && self.floating.is_empty() {
                 return Err(Violation::new(
                     "visible-count",
                     format!(
@@ -379,7 +391,18 @@ impl USys {
                         let en = (st + len).min(self.content.len());
                         (en - st) as i32
                     }
-                    K::Write { data, .. } => data.len() as i32,
+                    K::Write { off, data } => {
+                        if self.cfg.capacity.is_some() {
+                            // what the synchronous write_at does: charge the growth of the file
+                            let sh = self.shadow.lock().unwrap();
+                            let cur = sh.file_len(std::path::Path::new("/f"));
+                            let additional = (*off + data.len() as u64).saturating_sub(cur);
+                            if additional > 0 && sh.check_space(additional).is_err() {
+                                return ENOSPC;
+                            }
+                        }
+                        data.len() as i32
+                    }
                     K::Fsync => 0,
                     K::Cancel { .. } | K::BadFlag => 0,
                 }
@@ -410,7 +433,8 @@ impl USys {
                     ));
                 }
             }
-            (St::InFlight, K::Write { off, data }) if self.file_open => {
+            (St::InFlight, K::Write { off, data }) if self.file_open && self.expected_result(i) >= 0 => {
+                self.shadow.lock().unwrap().write_file(std::path::Path::new("/f"), *off, data, std::time::Duration::ZERO);
                 let end = *off as usize + data.len();
                 if self.content.len() < end {
                     self.content.resize(end, 0);
@@ -418,6 +442,7 @@ impl USys {
                 self.content[*off as usize..end].copy_from_slice(data);
             }
             (St::InFlight, K::Fsync) if self.file_open => {
+                let _ = self.shadow.lock().unwrap().sync_file(std::path::Path::new("/f"));
                 self.durable = self.content.clone();
             }
             _ => {}
@@ -438,6 +463,7 @@ impl USys {
 
     fn crash(&mut self) -> Result<(), Violation> {
         self.fs.lock().unwrap().crash();
+        self.shadow.lock().unwrap().crash();
         self.iou.lock().unwrap().crash();
         self.crashes += 1;
         for s in &mut self.subs {
@@ -506,6 +532,7 @@ impl USys {
             A_READ2 => self.push(0, K::Read { off: 2, len: 4 }, None, false)?,
             A_WRITE0 => self.push(0, K::Write { off: 0, data: b"XY".to_vec() }, None, false)?,
             A_WRITE3 => self.push(0, K::Write { off: 3, data: b"PQ".to_vec() }, None, false)?,
+            A_WRITE_HOLE => self.push(0, K::Write { off: 7, data: b"HJ".to_vec() }, None, false)?,
             A_FSYNC => self.push(0, K::Fsync, None, false)?,
             A_CANCEL_LAST => {
                 let t = self.subs.iter().rev().find(|s| s.ring == 0 && !matches!(s.k, K::Cancel { .. })).map(|s| s.ud).unwrap_or(77);
@@ -572,6 +599,29 @@ impl System for USys {
         if cfg.page_cache {
             c.page_cache();
         }
+        if let Some(cap) = cfg.capacity {
+            c.capacity(cap);
+        }
+        if cfg.odirect {
+            c.direct_io_alignment(1);
+        }
+        // the twin: same capacity, no latency / cache, driven through the synchronous API
+        let shadow = {
+            let mut sc = FsConfig::default();
+            if let Some(cap) = cfg.capacity {
+                sc.capacity(cap);
+            }
+            let sh = Arc::new(Mutex::new(Fs::new(sc, 7)));
+            {
+                let _g = turmoil_fs::enter(&sh, EnterCtx { now: dur(1_000_000), on_corruption: None });
+                use std::os::unix::fs::FileExt;
+                let f = sfs::OpenOptions::new().read(true).write(true).create(true).open("/f").expect("create shadow /f");
+                f.write_at(b"abcd", 0).unwrap();
+                f.sync_all().unwrap();
+                sfs::sync_dir("/").unwrap();
+            }
+            sh
+        };
         let q = Arc::new(Mutex::new(VecDeque::new()));
         let mut fs = Fs::new(c, 7);
         fs.rng = Box::new(ScriptRng { q: q.clone(), unscripted: Arc::new(Mutex::new(0)), plain_no: false, fallback: crate::fsys::fallback_rng() });
@@ -579,6 +629,7 @@ impl System for USys {
         let iou = Arc::new(Mutex::new(IoUringHostState::new()));
         let mut s = USys {
             fs,
+            shadow,
             iou,
             rings: vec![],
             dead_rings: vec![],
@@ -603,7 +654,12 @@ impl System for USys {
             let g = s.enter();
             let g: Guards<'static> = unsafe { std::mem::transmute(g) };
             use std::os::unix::fs::FileExt;
-            let f = sfs::OpenOptions::new().read(true).write(true).create(true).open("/f").expect("create /f");
+            let f = if cfg.odirect {
+                use std::os::unix::fs::OpenOptionsExt;
+                sfs::OpenOptions::new().read(true).write(true).create(true).custom_flags(0x4000).open("/f").expect("create /f (O_DIRECT)")
+            } else {
+                sfs::OpenOptions::new().read(true).write(true).create(true).open("/f").expect("create /f")
+            };
             f.write_at(b"abcd", 0).unwrap();
             f.sync_all().unwrap();
             sfs::sync_dir("/").unwrap();
@@ -652,6 +708,7 @@ impl System for USys {
             A_READ2 => "ring0: push read(off 2, len 4)".into(),
             A_WRITE0 => "ring0: push write(off 0, \"XY\")".into(),
             A_WRITE3 => "ring0: push write(off 3, \"PQ\")".into(),
+            A_WRITE_HOLE => "ring0: push write(off 7, \"HJ\") (past end-of-file)".into(),
             A_FSYNC => "ring0: push fsync".into(),
             A_CANCEL_LAST => "ring0: push cancel(latest operation)".into(),
             A_CANCEL_UNKNOWN => "ring0: push cancel(unknown user_data)".into(),
